@@ -665,6 +665,10 @@ func (st *state) step(i int, op *Op) {
 			st.fail(op.K, "incomplete", "WriteTo to an all-accepting writer returned nil with %d bytes left", len(st.model))
 			return
 		}
+		if !w.failed && err != nil && len(st.model) != 0 {
+			st.fail(op.K, "error-with-data", "WriteTo to an all-accepting writer returned %v with %d bytes still buffered (%d handed over)", err, len(st.model), len(w.got))
+			return
+		}
 	case "Reset":
 		s.reset(op.N)
 		logf("")
